@@ -349,6 +349,11 @@ func (generator *ConverterGenerator) mappingForOption(context Context, converter
 func (generator *ConverterGenerator) argumentsForEnvelope(context Context, converter Converter, argName string, valuePath ast.Path, assignment ast.Assignment) []ArgumentMapping {
 	var mappings []ArgumentMapping
 	for _, envelopeField := range assignment.Value.Envelope.Values {
+		// no need for an argument if the field is set from a constant value
+		if envelopeField.Value.Constant != nil {
+			continue
+		}
+
 		fieldValuePath := valuePath.Append(envelopeField.Path)
 		mappings = append(mappings, generator.argumentForType(context, converter, argName, fieldValuePath, fieldValuePath.Last().Type))
 	}
